@@ -120,5 +120,9 @@ Definition serialize (files : list entry) : outcome bytes :=
   let txt := txt0 ++ pad_zeros (hl + lenN txt0) in
   let base := hl + lenN txt in
   let '(finfo, raw) := fold_left (file_step base) (map snd files) ([], []) in
+  (* F26 (530f18c): the header stores the count in 16 bits and every address and size in 32 bits;
+     `if contents.len() > u16::MAX || image_size > u32::MAX { return Err(OtherError) }`, after the sizes are computed *)
+  let image_size := hl + lenN txt + lenN raw in
+  if orb (65535 <? n) (4294967295 <? image_size) then Err EOther else
   Ok (enc BE 4 MAGIC ++ enc BE 2 (trunc_w 16 n) ++ [0; 0]
       ++ flat_map row (combine taddrs finfo) ++ txt ++ raw).
